@@ -87,9 +87,11 @@ def main():
     out["caught"] = any(v["rc"] == 1 for v in out["checks"].values())
     dst = os.path.join(ROOT, "seeded", name)
     os.makedirs(dst, exist_ok=True)
-    shutil.copy(os.path.join(src, "patch.diff"), os.path.join(dst, "patch.diff"))
+    if os.path.abspath(src) != os.path.abspath(dst):
+        shutil.copy(os.path.join(src, "patch.diff"), os.path.join(dst, "patch.diff"))
     if demo:
-        shutil.copy(os.path.join(src, demo), os.path.join(dst, demo))
+        if os.path.abspath(src) != os.path.abspath(dst):
+            shutil.copy(os.path.join(src, demo), os.path.join(dst, demo))
     meta_out = {"breaks_property": prop, "needs": meta.get("needs", ""), "summary": meta.get("summary", ""),
                 "files": meta.get("files", []), "demo_placement": place, "evaluation": out,
                 "what_was_run": ["copy of /repo + git apply patch.diff", "go build ./...", "demonstration without and with the change",
